@@ -300,14 +300,19 @@ def needs_loop(graph):
     return False
 
 
-def build_graph(ctx, source_kwargs):
-    """Instantiate the scenario graph with the public fluent API."""
+def build_graph(ctx, source_kwargs, late=None):
+    """Instantiate the scenario graph with the public fluent API.  Nodes marked 'attach_at' (a consumer
+    subscribing while the pipeline is already running) are left out; the driver adds each of them later by
+    calling again with late=<node id>."""
     import streamz
     from streamz import Stream
     sc = ctx.sc
-    N = {}
+    N = ctx.built if late is not None else {}
+    ctx.built = N
     for n in sc['graph']:
         nid, op = n['id'], n['op']
+        if (late is None) == ('attach_at' in n) or (late is not None and nid != late):
+            continue
         ups = [N[u] for u in n.get('up', [])]
         kw = {}
         entry = cont = False
@@ -459,6 +464,9 @@ def build_graph(ctx, source_kwargs):
             raise ValueError('unknown op %r' % op)
         N[nid] = s
         ctx.instrument(nid, s, entry=entry, cont=cont)
+    if late is not None:
+        ctx.rec.rec('attached', late)
+        return N
     # feedback edges (guarded by unique in the generated templates): connected after construction
     for fb in sc.get('feedback', []):
         N[fb['from']].connect(N[fb['to']])
@@ -467,7 +475,7 @@ def build_graph(ctx, source_kwargs):
         # for nodes that are not sources it must change nothing
         has_child = set(u for n in sc['graph'] for u in n.get('up', []))
         for n in sc['graph']:
-            if n['id'] not in has_child:
+            if n['id'] not in has_child and n['id'] in N:
                 N[n['id']].start()
     return N
 
